@@ -76,6 +76,15 @@ def gen_scenarios(tier, seed):
                       sfio=rng.below(2), timeout_ms=rng.choice([0, 0, 5000]), on_eof_ret=rng.below(2), every_read_reset=rng.below(2),
                       close_mode=rng.choice([1, 1, 2]), payload=rng.bytes(P),
                       frags=fragments(rng, P, rng.choice([1, 3, 50, 5000]), [0, 0, 0, 50, 300])))
+    # A1b: a still armed task with TP_TASK_F_CLOSE_ON_DESTROY is destroyed while another reference to its descriptor exists;
+    # data arriving afterwards must not reach a callback
+    for i in range(6 * scale):
+        S = rng.choice([64, 256, 4096])
+        P = rng.choice([1, 10, S // 2])
+        out.append(mk(rng, family="destroy-armed-shared-descriptor", S=S, win_o=0, win_t=S, event_flags=0,
+                      task_flags=1 | rng.choice([0, TASK_F_EVERY_READ]), sfio=rng.below(2), timeout_ms=rng.choice([0, 5000]),
+                      close_mode=0, wait_done=0, quiesce_ms=rng.choice([5, 30]), payload=rng.bytes(P),
+                      frags=fragments(rng, P, rng.choice([1, 50]), [0, 0, 50])))
     # A2: dispatch (manual mode) tasks: after some CONTINUEs the callback returns NONE without stopping; silence is required until re-enable
     for i in range(16 * scale):
         S = rng.choice([8, 64, 256])
